@@ -2,3 +2,4 @@ CONSTANTS
   Widths = {1023, 1024, 1025, 2047, 2048, 2049, 2600, 4097}
   Shorts = {1, 2, 3}
   Part = "tall"
+  SweepVals = {}
